@@ -596,11 +596,15 @@ type runResult struct {
 
 // runSchedule executes prefix; with extend it then keeps scheduling the lowest-numbered choice until
 // every thread has finished (bounded).
+// curSched: the schedule being executed, for the watchdog (a step that blocks the harness itself never returns)
+var curSched atomic.Value
+
 func runSchedule(defs []*threadDef, prefix []int, extend bool, pick func(ch []int) int) runResult {
 	e := newExecution(defs)
 	res := runResult{}
 	var labels []string
-	for _, tid := range prefix {
+	for i, tid := range prefix {
+		curSched.Store(append([]int(nil), prefix[:i+1]...))
 		if tid < 0 || tid >= len(e.thr) {
 			labels = append(labels, "?")
 		} else {
@@ -625,6 +629,7 @@ func runSchedule(defs []*threadDef, prefix []int, extend bool, pick func(ch []in
 			}
 			res.choices = append(res.choices, ch)
 			res.sched = append(res.sched, tid)
+			curSched.Store(append([]int(nil), res.sched...))
 			labels = append(labels, e.step(tid))
 		}
 		if len(e.alive()) > 0 && !e.aborted {
@@ -797,6 +802,13 @@ func main() {
 	out := xvlib.NewOut(args.Out)
 	defer out.Close()
 	h := &harness{out: out}
+	out.OnHang(func() []string {
+		ops := append([]string{}, h.header...)
+		if s, ok := curSched.Load().([]int); ok {
+			ops = append(ops, schedLine(s))
+		}
+		return ops
+	})
 	repo := os.Getenv("XV_REPO")
 	if repo == "" {
 		repo = "/repo"
